@@ -200,8 +200,12 @@ pub fn create_mint_2022_badged(l: &mut Ledger, payer: &Pubkey, mint: &Pubkey, au
     let fee_ix = fee.map(|(bps, max)| {
         ix::from_sol(spl_token_2022::extension::transfer_fee::instruction::initialize_transfer_fee_config(&ix::tok22(), mint, Some(authority), Some(authority), bps, max).unwrap())
     });
+    // (extras bit 4: the hook's authority has been renounced; bit 5: the mint carries the TransferHook extension but names no
+    // hook program - nothing is called on transfer, no hook accounts are needed)
     let hook_ix = if hook {
-        Some(ix::from_sol(spl_token_2022::extension::transfer_hook::instruction::initialize(&ix::tok22(), mint, Some(*authority), Some(rt::hook_program_id())).unwrap()))
+        let hook_authority = if extras & 16 != 0 { None } else { Some(*authority) };
+        let hook_program = if extras & 32 != 0 { None } else { Some(rt::hook_program_id()) };
+        Some(ix::from_sol(spl_token_2022::extension::transfer_hook::instruction::initialize(&ix::tok22(), mint, hook_authority, hook_program).unwrap()))
     } else {
         None
     };
